@@ -387,6 +387,7 @@ impl<'a> GeneratorState<'a> {
                     }
                     _ => {
                         let mut acc_in_use = self.acc_in_use;
+                        let mut flags_describe_a = true;
                         let signed;
                         match right {
                             ExprType::Absolute(_, _, _)
@@ -418,6 +419,10 @@ impl<'a> GeneratorState<'a> {
                                 signed = *s;
                                 acc_in_use = false;
                                 self.acc_in_use = false;
+                                // A value that comes back from a call: N and Z are whatever the
+                                // callee's last instruction left, not necessarily those of A
+                                flags_describe_a = !self.acc_is_call_result;
+                                self.acc_is_call_result = false;
                             }
                             ExprType::Nothing => {
                                 return Err(self
@@ -429,7 +434,7 @@ impl<'a> GeneratorState<'a> {
                         match left {
                             ExprType::Absolute(a, b, c) => {
                                 self.asm(STA, left, pos, high_byte)?;
-                                self.flags = if high_byte {
+                                self.flags = if high_byte || !flags_describe_a {
                                     FlagsState::Unknown
                                 } else {
                                     FlagsState::Absolute(a.clone(), *b, *c)
@@ -437,7 +442,7 @@ impl<'a> GeneratorState<'a> {
                             }
                             ExprType::AbsoluteX(s) => {
                                 self.asm(STA, left, pos, high_byte)?;
-                                self.flags = if high_byte {
+                                self.flags = if high_byte || !flags_describe_a {
                                     FlagsState::Unknown
                                 } else {
                                     FlagsState::AbsoluteX(s.clone())
@@ -445,7 +450,7 @@ impl<'a> GeneratorState<'a> {
                             }
                             ExprType::AbsoluteY(s) => {
                                 self.asm(STA, left, pos, high_byte)?;
-                                self.flags = if high_byte {
+                                self.flags = if high_byte || !flags_describe_a {
                                     FlagsState::Unknown
                                 } else {
                                     FlagsState::AbsoluteY(s.clone())
